@@ -31,6 +31,15 @@ CHECKS = [
  chk("C12", "Seeded search over call histories sharing fragment dictionaries within one process, under several PYTHONHASHSEED values in fresh interpreters: numbering/naming invariants on every returned graph, byte-identical canonical dumps across constructors, permuted definition blocks, schedules and co-tenants, library snapshots after every event including after aborts at sampled lines and scribbles on returned graphs, event-log digests identical across hash seeds.",
      "Trusted: canonical dump covers all node/edge attributes reachable from returned graphs; fork isolation; only libraries that were passed in are judged for modification.",
      "deterministic simulation: seeded op-level scheduler + fault injection + library snapshot invariant + cross-interpreter (hash seed) log comparison", "DESIGN.md 4/C12"),
+ chk("C09", "Sampler half decided by seeded search over growth trajectories in all-atom mode (seed mode and owned-entropy mode, histories with repeated sample(), aborts, co-tenants): every returned molecule is judged by an independent valence table, hydrogens must have degree one and carry their atom's fragid/fragname/weight. Resolver half only monitored: the same oracle runs on 1-2 generated leaf-decomposition items per run (and inside the C06/C12 runs) and on the constructed hydrogen counts; no search over resolvable strings is claimed because that half is a pure function of the input.",
+     "Trusted: the harness' valence table (C 4; N 3,5; O 2; S 2,4,6; P 3,5; halogens 1; charged centres by isoelectronic shift); atoms whose heavy-atom bonds do not fit the table are not judged and are counted. Workload keeps descriptors off aromatic ring atoms.",
+     "deterministic simulation of the sampler's random growth process (owned entropy / seeds / history faults) with an independent valence oracle; resolver side monitored only", "DESIGN.md 4/C09"),
+ chk("C16", "Seeded search over random growth trajectories of the sampler: the simulator owns the entropy under stdlib random (steering into smallest-weight, boundary and first/last options) or the seed, and drives histories with repeated sample(), seed=None through a simulated clock, foreign RNG use, aborts and resolver co-tenants. Every growth step is checked against a small descriptor model (one copy, one bond, complementary descriptors of equal order, both consumed once, nothing else changed) and every returned molecule post hoc (connected, tree of copies, copies match templates, descriptor accounting, canonical numbering/membership, valence).",
+     "Trusted: the harness' descriptor model; the growth-step monitor hooks the public add_fragment method (post-hoc oracles do not need it). Dead ends are outcomes, not verdicts.",
+     "deterministic simulation of a random process: owned-entropy SimRandom + seeded histories + step monitor against a reference model + post-hoc structural oracles", "DESIGN.md 4/C16"),
+ chk("C17", "Same simulated histories as C16 with the oracles of C17: stopping rule on the added masses, element-derived masses against an independent mass table, explicit zero reactivities never chosen (also under steered and boundary entropy values), terminal rules per atom, and reproducibility of atomic construct-and-sample ops against a pristine reference process after arbitrary histories (other seeds, foreign RNG use, aborted calls, co-tenants), at any simulated clock value and across interpreters with different PYTHONHASHSEED.",
+     "Trusted: construct-and-sample is judged as one atomic op (interleaving another construction between the two is outside the statement); only explicit zeros are judged; masses within 1e-3 relative of the harness' table.",
+     "deterministic simulation: owned entropy with steering and edge values, simulated clock, history faults, isolation reference, cross-interpreter log comparison", "DESIGN.md 4/C17"),
 ]
 
 m = {
